@@ -1,6 +1,7 @@
 package rules
 
 import (
+	"go/token"
 	"strings"
 
 	"golang.org/x/tools/go/ssa"
@@ -54,6 +55,14 @@ func R1RejectEffects(c *Ctx) {
 					return ok && CalleeName(cl) == "(*bytes.Buffer).Write"
 				}) {
 					infeasible = true
+				}
+				// … or a boolean helper that answers false only after a failed Buffer.Write
+				if cnd, truth := StripNot(f.Cond, f.Truth); !truth {
+					if hc, ok := cnd.(*ssa.Call); ok {
+						if h := hc.Call.StaticCallee(); h != nil && h.Blocks != nil && FuncPkgPathOf(h) == PkgHandlers && falseOnlyOnBufferWriteErr(h) {
+							infeasible = true
+						}
+					}
 				}
 				// the write may sit in a helper of this package whose error result is that write's error
 				if bo, ok := f.Cond.(*ssa.BinOp); ok && (isNilConst(bo.X) || isNilConst(bo.Y)) {
@@ -182,6 +191,46 @@ func errOnlyFromBufferWrite(v ssa.Value, depth int) bool {
 			continue
 		}
 		if !errOnlyFromBufferWrite(r, depth+1) {
+			return false
+		}
+	}
+	return n > 0
+}
+
+// falseOnlyOnBufferWriteErr: h returns a bool, and every `return false` of h lies on the err != nil edge of a
+// (*bytes.Buffer).Write error (which never happens).
+func falseOnlyOnBufferWriteErr(h *ssa.Function) bool {
+	if h.Signature.Results().Len() != 1 || !isBoolType(h.Signature.Results().At(0).Type()) {
+		return false
+	}
+	n := 0
+	for _, b := range h.Blocks {
+		ret, ok := b.Instrs[len(b.Instrs)-1].(*ssa.Return)
+		if !ok {
+			continue
+		}
+		if isBoolConst(ret.Results[0], true) {
+			continue
+		}
+		if !isBoolConst(ret.Results[0], false) {
+			return false
+		}
+		n++
+		under := false
+		for _, f := range FactsAt(b) {
+			bo, ok := f.Cond.(*ssa.BinOp)
+			if !ok || !(isNilConst(bo.X) || isNilConst(bo.Y)) || !((bo.Op == token.NEQ) == f.Truth) {
+				continue
+			}
+			v := bo.X
+			if isNilConst(bo.X) {
+				v = bo.Y
+			}
+			if errOnlyFromBufferWrite(v, 0) {
+				under = true
+			}
+		}
+		if !under {
 			return false
 		}
 	}
